@@ -265,6 +265,12 @@ func evRefreshDown() h.Event {
 	return h.Event{Label: "every-refresh-of-this-scan-fails", Apply: func(hh *h.Hist) { hh.SlotFlags["refresh-down"] = true }}
 }
 
+// evDescribeOmits: during the coming scan every refresh gets a successful DescribeAutoScalingGroups
+// answer that leaves the ASG out (a partial answer; provider rebuilds are answered in full).
+func evDescribeOmits(asg string) h.Event {
+	return h.Event{Label: "describe-answers-without(" + asg + ")", Apply: func(hh *h.Hist) { hh.SlotFlags["describe-omits:"+asg] = true }}
+}
+
 // evReplaceInstance: the ASG replaces the instance behind the node; the new machine registers a fresh
 // node (under the old name when keepName is set).
 func evReplaceInstance(node string, keepName bool) h.Event {
